@@ -253,6 +253,7 @@ static void teardown(void *vs)
 int main(int argc, char **argv)
 {
     mc_init("C19", argc, argv);
+    libast_debug_level = (unsigned) mc_dlevel();        /* --dlevel=N: the whole run at runtime debug level N (default 0) */
     const char *td = getenv("VERIF_SCRATCH");
     g_k = (int) mc_arg_int("k", mc_thorough() ? 6 : 4);
     g_dev = (int) mc_arg_int("dev", mc_thorough() ? 3 : 2);
